@@ -230,3 +230,10 @@ Proof.
 Qed.
 
 End Top.
+
+(* without jumps the runs of Spec/LossyJump.v are those of Model/Broadcast.v and Spec/Lossy.v *)
+Require Import V.Spec.LossyJump.
+Lemma jrun_plain m w hv cap h : forall s, jrun m w hv cap s (map JOp h) = run m w hv cap s h.
+Proof. induction h as [|o h IH]; intros s; cbn [map jrun run jstep]; auto. destruct (step m w hv cap s o) as [[s'|] ob]; auto. now rewrite IH. Qed.
+Lemma sjrun_plain cap h : forall s, sjrun cap s (map JOp h) = spec_run cap s h.
+Proof. induction h as [|o h IH]; intros s; cbn [map sjrun spec_run sjstep]; auto. destruct (spec_step cap s o) as [[s'|] ob]; auto. now rewrite IH. Qed.
